@@ -112,7 +112,8 @@ PROPS = {
                 "out of order), the same on 16-lane Fp25519 shares (the production layout), or the real pseudonym function eval_dy_prf; executed honestly (must validate and open x*y resp. g^(1/(k+x))), then - in c04_tamper - "
                 "replayed with the same seed while one helper adds +1 to one field element (or flips a bit) in one chunk it sends, the site drawn from the honest run's channel inventory stratified by step "
                 "(upgrade, multiply, duplicate multiply, propagate u/w, reveal r, check-zero multiply and reveal, opening), or - 'consistent' attack - adds the same error to a product share it sends and to the copy of "
-                "that share it contributes to the opening, or - 'lane_cancel', 16-lane shares - adds +1 to one lane and -1 to another lane of both messages; non-trivial iff delivered; distinct by (shape, site, schedule digest)",
+                "that share it contributes to the opening, or - 'lane_cancel', 16-lane shares - adds +1 to one lane and -1 to another lane of both messages, or - 'rush' (F1b: helpers as separate tasks, bytes travel when sent (hook H5), the corrupt helper's task is late) - additionally replaces its own product share of r*T in the batch's check-zero step once its neighbour has opened its shares, "
+                "or - 'known_r' (F1c) - adds e to a product share, r*e to the duplicate product share and e to the opening copy with an r it has already seen opened; non-trivial iff delivered; distinct by (shape, site, schedule digest)",
         "scenarios": [
             {"name": "c04_mac", "quick": 2000, "thorough": 100000, "offset": 1, "chunk": 50, "run_timeout": 120},
             {"name": "c04_tamper", "quick": 6000, "thorough": 300000, "offset": 2, "chunk": 100, "run_timeout": 120, "crash_ok": True},
@@ -318,7 +319,7 @@ MANIFEST_TEXT = {
     "C04": {
         "text": "Fault enumeration over the real MAC validator and openings: honest executions over three fields and the real pseudonym function must validate and open exactly x*y / g^(1/(k+x)) on all helpers; then the same seed is replayed with one helper adding an error to one field element (or flipping a bit) of one chunk it sends, at a site drawn from the honest run's inventory stratified over every step of upgrade, multiply, duplicate multiply, propagate-u/w, reveal-r, check-zero and the opening. Violation iff both honest helpers validate and open a value different from the true one (32-bit and 255-bit fields); for the 5-bit field the acceptance rate over the batch must stay below 0.1 plus a 6.5-sigma margin. Sites are sampled.",
         "design_ref": "DESIGN.md section 4, C04",
-        "note": "soundness error 1/|F| per check is assumed for the large fields (2^-32, 2^-252); the Fp31 rule has a one-sided false-alarm probability < 1e-9 for any seed",
+        "note": "one known finding (a late, rushing helper defeats the check-zero step on the unchanged tree), see known_findings.json; soundness error 1/|F| per check is assumed for the large fields (2^-32, 2^-252); the Fp31 rule has a one-sided false-alarm probability < 1e-9 for any seed",
         "technique": "deterministic simulation: honest run + same-seed replay with single-site additive/bit error, channel inventory stratified by protocol step",
     },
     "C03": {
